@@ -102,7 +102,7 @@ fn lib_http(s: &RHttp) -> dh::Signature {
             _ => dh::Version::Any,
         },
         horder: s.horder.iter().map(lib_hdr).collect(),
-        habsent: s.habsent.iter().map(|n| dh::Header { optional: false, name: n.clone(), value: None }).collect(),
+        habsent: s.habsent.iter().map(lib_hdr).collect(),
         expsw: s.expsw.clone(),
     }
 }
@@ -304,7 +304,16 @@ fn gen_http(r: &mut Rng, allow_empty_horder: bool) -> RHttp {
     RHttp {
         ver: *r.pick(&['0', '1', '*']),
         horder: (0..nh).map(|_| gen_hdr(r)).collect(),
-        habsent: (0..na).map(|_| gen_hname(r)).collect(),
+        habsent: (0..na)
+            .map(|_| {
+                // absent entries are headers too: mostly bare names, sometimes marked or valued
+                if r.chance(1, 3) {
+                    gen_hdr(r)
+                } else {
+                    RHdr { optional: false, name: gen_hname(r), value: None }
+                }
+            })
+            .collect(),
         expsw,
     }
 }
@@ -507,7 +516,7 @@ fn vocabulary(ctx: &mut Ctx) {
                         let s = RHttp {
                             ver,
                             horder: (0..nh).map(|i| RHdr { optional: i % 2 == 1, name: HDR_NAMES[i].to_string(), value: if i % 3 == 0 { None } else { Some(format!("v{i}")) } }).collect(),
-                            habsent: (0..na).map(|i| HDR_NAMES[10 + i].to_string()).collect(),
+                            habsent: (0..na).map(|i| RHdr { optional: (i + nh) % 3 == 1, name: HDR_NAMES[10 + i].to_string(), value: if (i + nh) % 4 == 2 { Some(format!("a{i}")) } else { None } }).collect(),
                             expsw: expsw.to_string(),
                         };
                         check_http(ctx, &s);
